@@ -43,7 +43,7 @@ func init() {
 			fmt.Fprintf(cases, "%d | %s | %s\n", n, valString(req), valString(nodeReply))
 			e := getEnv(n)
 			scripted = nodeReply
-			reply, timedOut := e.Do(req, 2*time.Second)
+			reply, timedOut := envDo(e, req, 2*time.Second)
 			out := ""
 			switch {
 			case len(e.Panics()) > 0:
@@ -196,7 +196,7 @@ func init() {
 				for _, x := range extra {
 					vs = append(vs, bulk(x))
 				}
-				reply, timedOut := e.Do(arr(vs...), 2*time.Second)
+				reply, timedOut := envDo(e, arr(vs...), 2*time.Second)
 				steps++
 				if len(e.Panics()) > 0 {
 					status = "PANIC"
